@@ -76,6 +76,7 @@ def _ops():
     N("setv/chain", lambda v: E(S("setv"), K("chain"), List([U("x"), U("y")]), v), [B], RM + "compile_assign")
     N("setv/annotated", lambda t, v: E(S("setv"), E(S("annotate"), U("x"), t), v), [B, B], RM + "compile_assign")
     N("setx", lambda v: E(S("setx"), U("x"), v), [B + ("T",)], RM + "compile_def_expression")
+    N("setv/annotated-temp-value", lambda t, v: E(S("setv"), E(S("annotate"), U("x"), t), v), [V, ("T",)], RM + "compile_assign")
     N("annotate", lambda t: E(S("annotate"), U("x"), t), [B], RM + "compile_basic_annotation")
     N("let/1", lambda v, b: E(S("let"), List([U("x"), v]), b, U("x")), [B, B], RM + "compile_let")
     N("let/2", lambda v, w, b: E(S("let"), List([U("x"), v, List([U("y"), U("z")]), w]), b, U("y")), [B, B, B], RM + "compile_let")
@@ -137,6 +138,9 @@ def _ops():
     N("for/1", lambda xs, b: E(S("for"), List([U("x"), xs]), b), [B, B], C)
     N("for/clauses", lambda xs, c, d, v, b, o: E(S("for"), List([U("x"), xs, K("if"), c, K("do"), d, K("setv"), U("y"), v]), b, E(S("else"), o)),
       [V, V, B, V, B, B], C)
+    N("for/no-iteration-clause", lambda b, o: E(S("for"), List([]), b, E(S("else"), o)), [P, P], C)
+    N("for/no-iteration-clause-do", lambda d, b, o: E(S("for"), List([K("do"), d]), b, E(S("else"), o)), [P, P, P], C)
+    N("for/no-iteration-clause-if", lambda c, b, o: E(S("for"), List([K("if"), c]), b, E(S("else"), o)), [P, P, P], C)
     N("for/unpack-target", lambda xs, b: E(S("for"), List([List([U("x"), U("y")]), xs]), b), [B, B], C)
     for h in ("lfor", "sfor", "gfor"):
         N(f"{h}/1", lambda xs, e, h=h: E(S(h), U("x"), xs, e), [B, B], C)
@@ -192,6 +196,15 @@ def _ops():
                                               U("k"), E(S("unpack-mapping"), U("kw"))]), a, b), [B, B, B], F)
     N("fn/posonly-kwonly", lambda d, b: E(S("fn"), List([U("a"), S("/"), U("b"), S("*"), U("c"), List([U("d"), d])]), b), [B, B], F)
     N("fn/annotated", lambda t1, t2, b: E(S("fn"), E(S("annotate"), List([E(S("annotate"), U("a"), t1)]), t2), b), [V, V, B], F)
+    # an annotation on each kind of parameter, alone (the rule chooses between `lambda` and `def` by looking for annotations)
+    ann = lambda n, t: E(S("annotate"), U(n), t)
+    N("fn/annotated-positional-only", lambda t, b: E(S("fn"), List([ann("a", t), S("/")]), b), [V, B], F)
+    N("fn/annotated-ordinary", lambda t, b: E(S("fn"), List([ann("a", t)]), b), [V, B], F)
+    N("fn/annotated-with-default", lambda t, d, b: E(S("fn"), List([List([ann("a", t), d])]), b), [V, V, B], F)
+    N("fn/annotated-keyword-only", lambda t, b: E(S("fn"), List([S("*"), ann("a", t)]), b), [V, B], F)
+    N("fn/annotated-star", lambda t, b: E(S("fn"), List([E(S("unpack-iterable"), ann("a", t))]), b), [V, B], F)
+    N("fn/annotated-double-star", lambda t, b: E(S("fn"), List([E(S("unpack-mapping"), ann("a", t))]), b), [V, B], F)
+    N("fn/annotated-positional-only-with-default", lambda t, d, b: E(S("fn"), List([List([ann("a", t), d]), S("/")]), b), [V, V, B], F)
     N("fn/async", lambda b: E(S("fn"), K("async"), List([]), b), [B], F)
     D = RM + "compile_function_def, compile_function_node"
     N("defn", lambda d, a, b: E(S("defn"), U("my-fn"), List([U("a"), List([U("b"), d])]), a, b), [B, B, B], D)
